@@ -14,6 +14,8 @@ import BB.Proofs.DictEq
 import BB.Model.Tools
 import BB.Proofs.Sweep
 import BB.Properties.C09
+import BB.Proofs.G5Sweep
+import BB.Proofs.G5Repeat
 
 namespace BB.C17
 open BB BB.Tools
@@ -280,5 +282,161 @@ theorem repeatLoop_step (seq : Sequence) (pv : List (ℤ × Variation)) (step : 
 /-- zero steps: the result is the empty sequence with the input's settings -/
 theorem repeatLoop_nil (seq : Sequence) (pv : List (ℤ × Variation)) (acc : Sequence) :
     repeatLoop seq pv [] acc = .ok acc := rfl
+
+/-! ### makeLinearlyVaryingSequence: position by position -/
+
+/-- the `j`-th value of the linear sweep with `n` steps: `start + j·(stop − start)/(n − 1)`
+    (`start` alone when there is a single step) -/
+def linValue (start stop : ℚ) (n j : ℕ) : ℚ :=
+  if n = 1 then start else start + (j : ℚ) * ((stop - start) / ((n : ℚ) - 1))
+
+theorem linspace_getElem_all (start stop : ℚ) (n j : ℕ) (hj : j < n) :
+    (linspace start stop n)[j]'(by rw [linspace_length]; exact hj) = linValue start stop n j := by
+  unfold linValue
+  by_cases h1 : n = 1
+  · subst h1
+    have : j = 0 := by omega
+    subst this
+    simp [linspace]
+  · simp only [h1, if_false]
+    exact linspace_getElem start stop n j (by omega) hj
+
+/-- **what `makeLinearlyVaryingSequence` returns**: with `n = round(|stop − start|/step) + 1` steps
+    (`step ≠ 0`, `n ≥ 0`, else it raises), a sequence whose only AWG setting is the base element's
+    sample rate, with exactly the positions `1..n` (default sequencing each), position `j + 1`
+    holding the base element with the addressed argument (or duration) changed to
+    `start + j·(stop − start)/(n − 1)` — every change accepted, every changed element valid -/
+theorem makeLinearly_spec (base : Element) (ch : Chan) (name : String) (arg : Val) (start stop step : ℚ)
+    (s : Sequence) (h : makeLinearlyVaryingSequence base ch name arg start stop step = .ok s) :
+    ∃ sr, base.getSR = .ok sr ∧ step ≠ 0 ∧ 0 ≤ linCount start stop step ∧
+      Dict.keys s.data = oneTo (linCount start stop step).toNat ∧
+      s.sequencing = (oneTo (linCount start stop step).toNat).map (fun p => (p, Sequence.defaultSeqEl)) ∧
+      s.awgspecs = [("SR", .val sr)] ∧
+      ∀ j, j < (linCount start stop step).toNat → ∃ m,
+        (applyChange base ch name arg (.num (linValue start stop (linCount start stop step).toNat j))).err = none ∧
+        (applyChange base ch name arg (.num (linValue start stop (linCount start stop step).toNat j))).st.validate = .ok m ∧
+        Dict.get? s.data ((j + 1 : ℕ) : ℤ) = some (.el
+          { (applyChange base ch name arg (.num (linValue start stop (linCount start stop step).toNat j))).st with
+            cache := some m }) := by
+  unfold makeLinearlyVaryingSequence at h
+  cases hsr : base.getSR with
+  | error er => rw [hsr] at h; cases h
+  | ok sr =>
+    rw [hsr] at h
+    simp only at h
+    by_cases hstep : step = 0
+    · simp [hstep] at h
+    · simp only [hstep, if_false] at h
+      by_cases hneg : linCount start stop step < 0
+      · simp [hneg] at h
+      · simp only [hneg, if_false] at h
+        have hfill : G5.Filled (({} : Sequence).setSR sr) 0 := ⟨rfl, rfl⟩
+        obtain ⟨hf, hspec, _, hall⟩ := G5.linLoop_spec base ch name arg _ 0 _ s hfill h
+        rw [Nat.zero_add, linspace_length] at hf
+        refine ⟨sr, rfl, hstep, not_lt.mp hneg, hf.1, hf.2, by rw [hspec]; rfl, fun j hj => ?_⟩
+        obtain ⟨m, h1, h2, h3⟩ := hall j (by rw [linspace_length]; exact hj)
+        rw [linspace_getElem_all start stop _ j hj] at h1 h2 h3
+        rw [Nat.zero_add] at h3
+        exact ⟨m, h1, h2, h3⟩
+
+/-! ### makeVaryingSequence: the exact key set -/
+
+/-- **`makeVaryingSequence` returns exactly the positions `1..M`** (in this order), each with the
+    default sequencing entry — nothing else is stored -/
+theorem makeVarying_keys (base : Element) (lens : List Nat) (vars : List Variation) (s : Sequence)
+    (h : makeVaryingSequence base lens vars = .ok s) :
+    ∃ M, sweepSteps lens vars = .ok M ∧ Dict.keys s.data = oneTo M ∧ s.data.length = M ∧
+      s.sequencing = (oneTo M).map (fun p => (p, Sequence.defaultSeqEl)) := by
+  unfold makeVaryingSequence at h
+  cases hv : base.validate with
+  | error er => simp [hv] at h
+  | ok m =>
+    simp only [hv] at h
+    cases hs : sweepSteps lens vars with
+    | error er => simp [hs] at h
+    | ok M =>
+      simp only [hs] at h
+      cases hc : addCopies base M 0 (({} : Sequence).setSR m.1) with
+      | error er => simp [hc] at h
+      | ok s0 =>
+        simp only [hc] at h
+        cases ha : applyVars vars s0 with
+        | error er => simp [ha] at h
+        | ok s1 =>
+          simp only [ha] at h
+          cases hk : s1.checkConsistency with
+          | error er => simp [hk] at h
+          | ok b =>
+            cases b with
+            | false => simp [hk] at h
+            | true =>
+              simp only [hk, Except.ok.injEq] at h
+              subst h
+              have hfill : G5.Filled (({} : Sequence).setSR m.1) 0 := ⟨rfl, rfl⟩
+              obtain ⟨hf, _⟩ := G5.addCopies_filled base M 0 _ s0 hfill hc
+              rw [Nat.zero_add] at hf
+              obtain ⟨k1, k2, _⟩ := G5.applyVars_shape vars s0 s1 ha
+              refine ⟨M, rfl, by rw [k1, hf.1], ?_, by rw [k2, hf.2]⟩
+              have := congrArg List.length (k1.trans hf.1)
+              simpa [Dict.keys, oneTo_length] using this
+
+/-! ### repeatAndVarySequence: the fold of `+` over the varied copies -/
+
+/-- **what `repeatAndVarySequence` returns**: with `M` steps, there are `M` varied copies of `seq`
+    (`temps[i]` = the copy with the `i`-th values applied at the addressed positions:
+    `G5.applyStep_spec` / `G5.stepEntry`), every `+` of the loop returned, and the result is the
+    fold of `+` over them starting from the bare settings: it has `M · len(seq)` positions, carries
+    exactly `seq`'s AWG settings, and position `i·len(seq) + p` holds (a copy of) what the `i`-th
+    varied copy holds at `p` — i.e. `seq`'s entry at `p` with the `i`-th values applied -/
+theorem repeatAndVary_spec (seq : Sequence) (lens : List Nat) (poss : List ℤ) (vars : List Variation) (r : Sequence)
+    (h : repeatAndVarySequence seq lens poss vars = .ok r) :
+    ∃ (M : ℕ) (temps : List Sequence), seq.checkConsistency = .ok true ∧ sweepSteps lens vars = .ok M ∧ temps.length = M ∧
+      (∀ i (hi : i < temps.length), applyStep i (poss.zip vars) seq.copy = .ok temps[i]) ∧
+      temps.foldlM Sequence.add { awgspecs := seq.awgspecs } = .ok r ∧
+      r = temps.foldl Sequence.addCore { awgspecs := seq.awgspecs } ∧
+      r.data.length = M * seq.data.length ∧ r.awgspecs = seq.awgspecs ∧
+      ∀ i, i < temps.length → ∀ (p : ℤ) (en : Entry), Dict.get? seq.data p = some en →
+        Dict.get? r.data (p + ((i * seq.data.length : ℕ) : ℤ)) =
+          some (Sequence.copyEntry (G5.stepEntry i (poss.zip vars) p en)) := by
+  unfold repeatAndVarySequence at h
+  cases hc : seq.checkConsistency with
+  | error er => rw [hc] at h; cases h
+  | ok b =>
+    cases b with
+    | false => rw [hc] at h; cases h
+    | true =>
+      rw [hc] at h
+      simp only at h
+      cases hs : sweepSteps lens vars with
+      | error er => rw [hs] at h; cases h
+      | ok M =>
+        rw [hs] at h
+        simp only at h
+        obtain ⟨temps, hl, hall, hfold⟩ := G5.repeatLoop_spec seq _ _ _ r h
+        rw [List.length_range] at hl
+        have hstep : ∀ i (hi : i < temps.length), applyStep i (poss.zip vars) seq.copy = .ok temps[i] := by
+          intro i hi
+          have := hall i (by simpa [hl] using hi) hi
+          simpa using this
+        have hshape : ∀ t ∈ temps, t.data.length = seq.data.length ∧ t.awgspecs = seq.awgspecs := by
+          intro t ht
+          obtain ⟨i, hi, rfl⟩ := List.getElem_of_mem ht
+          obtain ⟨k1, _, k3, _⟩ := G5.applyStep_spec i _ _ _ (hstep i hi)
+          refine ⟨?_, k3⟩
+          have := congrArg List.length k1
+          simp only [Dict.keys, List.length_map] at this
+          exact this
+        obtain ⟨e1, e2, e3, e4⟩ := G5.foldAdd_spec temps _ r seq.data.length hfold
+          (fun t ht => (hshape t ht).1) (fun t ht => (hshape t ht).2)
+        refine ⟨M, temps, rfl, rfl, hl, hstep, hfold, e1, ?_, e3, ?_⟩
+        · rw [e2, hl]; simp
+        · intro i hi p en hp
+          obtain ⟨k1, _, _, k4⟩ := G5.applyStep_spec i _ _ _ (hstep i hi)
+          have hget := k4 p en hp
+          have hk : p ∈ Dict.keys temps[i].data := (Dict.get?_isSome_iff _ _).mp (by rw [hget]; rfl)
+          have := e4 i hi p hk
+          simp only [List.length_nil, Nat.zero_add] at this
+          rw [this, hget]
+          rfl
 
 end BB.C17
